@@ -60,7 +60,9 @@ class BuildError(Exception):
 
 
 def workdir(prop):
-    w = os.path.join(VERIF, ".work", prop)
+    # a development run against another tree (VERIF_REPO) gets its own scratch space
+    suffix = "" if REPO == "/repo" else "@" + REPO.strip("/").replace("/", "_")
+    w = os.path.join(VERIF, ".work", prop + suffix)
     os.makedirs(w, exist_ok=True)
     return w
 
